@@ -251,7 +251,7 @@ ARENA = {
         x=['base-allocator-ledger', 'chunks-not-released-exactly-once-by-drop', 'reset-did-not-keep-exactly-the-largest-chunk',
            'reset-to-start-called-the-base-allocator', 'chunk-outside-granted-block', 'scope-exit-released-a-chunk', 'panic'],
         mism=['base-allocator-events', 'init-result'],
-        note='PARTIAL: exactly-once release and fitting layouts proved over the model; no-touch-after-release / outside-granted-blocks monitored only (poison, guard bytes)'),
+        note='exactly-once release and fitting layouts proved over the model; every byte the arena itself changes (zeroing, grow / shrink / commit copies, fill) lies inside a granted block it still holds (ArenaWrites.v); PARTIAL: header writes and reads are not modelled: no-touch-after-release for those is monitored only (poison, guard bytes)'),
     'C07': dict(
         x=['panic', 'block-contents-changed', 'base-allocator-ledger', 'stats-identity', 'live-blocks-overlap'],
         mism=['result-kind', 'base-allocator-events', 'stats'],
